@@ -156,7 +156,7 @@ PROP = dict(
     theorems=['Fit.C17.C17_bytes', 'Fit.C17.C17_bytes_tables', 'Fit.C17.C17_filesMatch_sound',
               'Fit.C17.C17_factory_eq_xlsx_partial', 'Fit.C17.C17_factory_eq_xlsx_outside_class',
               'Fit.C17.C17_KF1_witness', 'Fit.C17.C17_types_eq_xlsx_partial', 'Fit.C17.C17_KF1_witness_types',
-              'Fit.C17.C17_dedupe_exact', 'Fit.C17.C17_dedupe_no_value_lost', 'Fit.C17.C17_dedupe_keeps',
+              'Fit.C17.C17_dedupe_exact', 'Fit.C17.C17_types_eq_xlsx_listed', 'Fit.C17.C17_dedupe_no_value_lost', 'Fit.C17.C17_dedupe_keeps',
               'Fit.C17.C17_types_without_R7_false',
               'Fit.C17.C17_refs_resolve', 'Fit.C17.C17_bitwidth_fit', 'Fit.C17.C17_string_roundtrip',
               'Fit.C17.C17_string_tables_cover', 'Fit.C17.C17_invalid_is_base_invalid', 'Fit.C17.C17_mesgnum_fieldnum_partial',
@@ -181,6 +181,6 @@ PROP = dict(
 
 TEXT = dict(
     technique='Lean 4 kernel-checked statements (decide +kernel, sharded over lemma modules; general soundness lemmas for the Boolean tests) about finite tables regenerated on every run. Two of the clauses are execution checks (translation validation by execution), not statements about a model of a program: byte-for-byte (the generator is re-run; sha256 table of its fresh output vs an independently produced sha256 table of every *_gen.go of the tree) and String/FromString round trip (the compiled functions are called on every constant). The others compare a dump of the compiled factory / typedef / profile packages and the reflection+probing tables of the typed structs with an independent python reading of Profile.xlsx; reference resolution, bit-width fit; differential tie of the dump to the live packages row by row',
-    text='On every run the repository\'s generator is re-run into a scratch directory and the sha256 of each of its 304 files is recorded (step gendigest); separately, with another tool, every *_gen.go of the whole tree is hashed and the generator its header names recorded (step treedigest, 306 files). C17_bytes: the kernel checks that the two tables agree — every emitted file is in the tree with the same digest, and every *_gen.go anywhere in the tree is emitted or is one of the two named outputs of other declared generators (cmd/fitprint/printer/typedef_gen.go, cmd/fitconv/fitcsv/lookup_gen.go), so a left-over generated file breaks it. This clause is translation validation by execution: the generator program is not modelled. The compiled factory (119 messages, 1382 fields, 98 sub-fields with components and reference maps), the 179 profile types (3658 rows of the Types sheet = 3657 constants + the one deprecated alias row weather_report.forecast = 1, whose value hourly_forecast = 1 keeps: reading rule R7, pinned by C17_dedupe_exact / C17_dedupe_no_value_lost; without the rule the statement is false, C17_types_without_R7_false), profile_gen.go (type list, String/FromString, BaseType), the untyped mesgnum/fieldnum constants, the typed structs of profile/mesgdef (slot kinds, base types, fixed lengths, eligible expanded numbers, emission order) and the version are proved equal, entry by entry, to an independent reading of Profile.xlsx up to exactly three spell-corrected identifiers (open finding KF-C17-1, C17_KF1_witness*). Internal consistency: component / sub-field references resolve within the message, component bits fit the containing field (a real bound for scalar and fixed-length fields; for variable-length arrays only the protocol maximum of 255 bytes bounds the sum), every listed constant round-trips through String/FromString with no duplicate value or string (an execution check of the compiled functions; C17_distinct_sound: the Boolean test implies List.Nodup).',
+    text='On every run the repository\'s generator is re-run into a scratch directory and the sha256 of each of its 304 files is recorded (step gendigest); separately, with another tool, every *_gen.go of the whole tree is hashed and the generator its header names recorded (step treedigest, 306 files). C17_bytes: the kernel checks that the two tables agree — every emitted file is in the tree with the same digest, and every *_gen.go anywhere in the tree is emitted or is one of the two named outputs of other declared generators (cmd/fitprint/printer/typedef_gen.go, cmd/fitconv/fitcsv/lookup_gen.go), so a left-over generated file breaks it. This clause is translation validation by execution: the generator program is not modelled. The compiled factory (119 messages, 1382 fields, 98 sub-fields with components and reference maps), the 179 profile types (3658 rows of the Types sheet = 3657 constants + the one deprecated alias row weather_report.forecast = 1, whose value hourly_forecast = 1 keeps: reading rule R7, pinned by C17_dedupe_exact / C17_types_eq_xlsx_listed / C17_dedupe_no_value_lost; without the rule the statement is false, C17_types_without_R7_false), profile_gen.go (type list, String/FromString, BaseType), the untyped mesgnum/fieldnum constants, the typed structs of profile/mesgdef (slot kinds, base types, fixed lengths, eligible expanded numbers, emission order) and the version are proved equal, entry by entry, to an independent reading of Profile.xlsx up to exactly three spell-corrected identifiers (open finding KF-C17-1, C17_KF1_witness*). Internal consistency: component / sub-field references resolve within the message, component bits fit the containing field (a real bound for scalar and fixed-length fields; for variable-length arrays only the protocol maximum of 255 bytes bounds the sum), every listed constant round-trips through String/FromString with no duplicate value or string (an execution check of the compiled functions; C17_distinct_sound: the Boolean test implies List.Nodup).',
     note='Trusted: Lean kernel; the translators (generator re-run + python sha256 of its output; find + sha256sum of the tree as a separate step; python xlsx reader with reading rules R0-R7; dump of the compiled packages; source scan for the untyped constants; reflection/probing of the typed structs) and the harness/driver protocol. Execution checks, not proofs about a program: the byte-for-byte clause (C17_bytes: the generator is run per check, validated, not verified) and the String/FromString tables (C17_string_roundtrip: the compiled functions are called). R7 consequence: WeatherReportForecast is not generated and WeatherReportFromString("forecast") is invalid. The profile version is not in the spreadsheet: it is taken from version_gen.go\'s doc comment.',
 )
